@@ -11,6 +11,7 @@ EXPLANATION = (
     "treat the same variant pairs specially; (R4) the spill codec's variant->tag and tag->variant tables are inverse "
     "bijections over all Value variants and use the same fixed-width integer types per variant; (R5) log records, "
     "snapshots and checkpoint metadata use derived serde and embed Value itself. (R5b) the derived serde bodies write and read every field and variant unconditionally; (R2b) a float wrapper whose Eq compares values is ordered by value, not by bit pattern; (R6) element-wise Eq arms recurse through the wrapper; (R7) the C binding writes each Value variant as a JSON shape from which json_to_value can rebuild it. "
+    "(R8) a promoted aggregate state is computed field by field from the old state; (R9) every seen-set of DISTINCT processing is keyed by HashableValue. "
     "The laws over all value triples are not decided.")
 ASSUMPTIONS = ["derived impls (automatically_derived) are structural and lossless"]
 
